@@ -82,6 +82,9 @@ def handout_table():
                 rows.append(('entities.by_handle.state', cname, len(sharing.sharing_matrix(ent.state, table_obj))))
                 d_tab = m.descriptions.handle.get_one(h)
                 rows.append(('entities.by_handle.descriptor', type(d_tab).__name__, len(sharing.sharing_matrix(ent.descriptor, d_tab))))
+                e2 = m.get_entity(h)  # the older getter of MdibBase
+                rows.append(('mdib.get_entity', cname, len(sharing.sharing_matrix(e2.state, table_obj)) + len(sharing.sharing_matrix(e2.descriptor, d_tab))
+                             + int(e2.state is table_obj) + int(e2.descriptor is d_tab)))
                 ent.update()          # a refreshed entity is as private as a fresh one
                 rows.append(('entity.update.state', cname, len(sharing.sharing_matrix(ent.state, m.states.descriptor_handle.get_one(h)))
                              + len(sharing.sharing_matrix(ent.descriptor, d_tab))))
@@ -111,6 +114,9 @@ def handout_table():
                     e = get()
                     rows.append((rname, type(c).__name__, len(sharing.sharing_matrix(e.states[tab.Handle], tab))
                                  + len(sharing.sharing_matrix(e.descriptor, d_tab))))
+                e2 = m.get_context_entity(tab.DescriptorHandle)
+                rows.append(('mdib.get_context_entity', type(c).__name__, len(sharing.sharing_matrix(e2.states[tab.Handle], tab))
+                             + len(sharing.sharing_matrix(e2.descriptor, d_tab)) + int(e2.states[tab.Handle] is tab) + int(e2.descriptor is d_tab)))
                 e = m.entities.by_handle(tab.DescriptorHandle)
                 with m.context_state_transaction() as mgr:
                     w.mutate_state(mgr.get_context_state(c.Handle), 8)
